@@ -82,14 +82,18 @@ def _run(rec):
         if exp - real:
             out["mism"].append({"clause": "promised-sharing-missing", "T": T, "input": v, "expected": sorted(map(str, exp)), "actual": sorted(map(str, real))})
         # deserialization: no typed container shared with the input, input not mutated
-        if '"no_copy"' not in json.dumps(T) and '"any"' not in json.dumps(T) and prior == "fresh":
+        if '"no_copy"' not in json.dumps(T) and prior == "fresh":
             d = copy.deepcopy(w)
             d0 = copy.deepcopy(d)
             y = subj.decode_py(d)
             if d != d0:
                 out["mism"].append({"clause": "input-mutated", "T": T, "input": v, "expected": "input unchanged", "actual": "changed"})
-            if all_ids(y, set()) & all_ids(d, set()):
-                out["mism"].append({"clause": "decode-shares-input", "T": T, "input": v, "expected": [], "actual": "shared container"})
+            # typed containers of the result (everything that is not at / below an Any position) are never objects of the input
+            ids_in = all_ids(d, set())
+            shared_out = {p for p, i in in_paths(y, (), {}).items() if i in ids_in}
+            bad = [p for p in shared_out if not any(p[: len(a)] == a for a in excepted)]
+            if bad:
+                out["mism"].append({"clause": "decode-shares-input", "T": T, "input": v, "expected": [], "actual": sorted(map(str, bad))})
             out["n"] += 1
     except Exception as e:  # noqa: BLE001
         out["mism"].append({"clause": "raises", "T": T, "input": v, "expected": wire_exp, "actual": ["exc", type(e).__name__, str(e)[:200]]})
